@@ -210,6 +210,8 @@ pub struct SetRunner<K: KeyT> {
     live: BTreeSet<u64>,
     dead: BTreeSet<u64>,
     leak_ok: bool,
+    /// `Clone` calls accounted for so far
+    cc_seen: u64,
 }
 
 /// kid of the object an op moves into the call: `(kid, certainly_created)`.
@@ -235,6 +237,7 @@ impl<K: KeyT> SetRunner<K> {
             live: Default::default(),
             dead: Default::default(),
             leak_ok: false,
+            cc_seen: 0,
         }
     }
     fn get(&self, tgt: &str) -> &S<K> {
@@ -795,6 +798,17 @@ impl<K: KeyT> SetRunner<K> {
                 return Some(format!("object k{} handed to the caller although the set dropped it (or handed it out before)", id));
             } else if id >= 1_000_000 {
                 self.dead.insert(id);
+            }
+        }
+        // every object `Clone` created during this call is stored, was dropped, or was handed back
+        let (cc_now, cpanic) = tape::with(|t| (t.cc, t.p.cpanic));
+        let cc_from = std::mem::replace(&mut self.cc_seen, cc_now);
+        if !self.leak_ok {
+            for c in cc_from..cc_now {
+                let id = 1_000_000 + 2 * c;
+                if cpanic != Some(c) && !held.contains(&id) && !self.dead.contains(&id) {
+                    return Some(format!("clone k{} leaked: created by this call, stored nowhere, never dropped", id));
+                }
             }
         }
         for id in &held {
